@@ -68,6 +68,12 @@ CLOSE = ["1.0000000000000002", "1.0000000000000004", "0.9999999999999999", "0.99
          "1000.0000000000001", "1000.0000000000002", "999.9999999999999"]
 
 
+# distinct in f64 and in the decimal type, but colliding under a reduced-precision sort key (f32's 24-bit
+# significand, truncation to an integer): an order by scale has to separate them
+NEAR = ["31557600.0", "31557601.0", "31557602.0", "1000000001.0", "1000000002.0", "1000000003.0", "16777216.0", "16777217.0", "16777218.0",
+        "0.3048", "0.30480001", "0.30480002", "1.00000001", "1.00000002", "2.4", "2.5", "2.6", "1000.4", "1000.6"]
+
+
 def literal(rng, regime=None):
     """(text, exact value); values distinct enough in f64 unless a tie is wanted.
     Regimes: scales below the machine epsilon (absolute differences < 2.2e-16) and
@@ -77,6 +83,9 @@ def literal(rng, regime=None):
         return t, Fraction(t)
     if regime == "close":
         t = rng.choice(CLOSE)
+        return t, Fraction(t)
+    if regime == "near":
+        t = rng.choice(NEAR)
         return t, Fraction(t)
     form = rng.choice(["int", "float", "float", "exp", "dot", "frac"])
     if form == "int":
@@ -157,7 +166,7 @@ def well_formed(rng, k, with_ref=None, n_units=None, derived=False):
         rp = rng.choice([None, "NONE", "KILO", "MILLI"])
         units.append(Unit(ident(rng, used), syms.pop(), rp, None, Fraction(1), rng.choice([None, "the reference"]), kind="ref_unit"))
         vals = set()
-        regime = rng.choice([None, None, None, "tiny", "close"])
+        regime = rng.choice([None, None, None, "tiny", "close", "near"])
         for _ in range(max(0, n - 1)):
             lit, val = literal(rng, regime if rng.random() < 0.8 else None)
             if rng.random() < 0.15:
